@@ -23,6 +23,7 @@ ASSUME = [
     "two clean-ups closer than the 12 h period are allowed in the model (over-approximation); on the code each is the first firing of its own real UsedRandomCleaner goroutine",
     "X25519 public keys other than the client's own encoding and its bit-255 twin that give the same secret (u + p for u < 19) occur with probability 2^-250 and are not constructed",
     "AES-GCM and X25519 are trusted: a copy with a different sealed block does not authenticate",
+    "AuthFirstPacket reads the clock twice (registerRandom, then decryptClientInfo); the model treats a presentation as one instant, i.e. the two reads are assumed less than 1 s apart (the margin the code keeps on top of 2*tolerance)",
 ]
 
 BASE = {"W": 2, "R": 4, "H": 8, "NP": 2, "MP": 4, "MC": 2, "SK": 1, "DEV": "{}", "INV": "TypeOK AtMostOnce Remembered"}
@@ -82,11 +83,11 @@ def run(ctx):
         submit("bfs_r2_evict", _gen, INV="TypeOK AtMostOnce", R=2, NP=1, H=4, MP=3, MC=1)  # presentation after eviction
         sims = [("sim_r4", 4, 300), ("sim_r3", 3, 200), ("sim_r2", 2, 300)]
     else:
-        submit("bfs_r4", _gen, INV="TypeOK AtMostOnce", NP=1, H=3, MP=4, MC=2)
-        submit("bfs_r4_evict", _gen, INV="TypeOK AtMostOnce", NP=1, H=6, MP=3, MC=2)
-        submit("bfs_r2_evict", _gen, INV="TypeOK AtMostOnce", R=2, NP=1, H=5, MP=3, MC=2)
-        submit("bfs_2p", _gen, INV="TypeOK AtMostOnce", NP=2, H=2, MP=3, MC=1)
-        sims = [("sim_r4", 4, 12000), ("sim_r3", 3, 6000), ("sim_r2", 2, 12000)]
+        submit("bfs_r4", _gen, INV="TypeOK AtMostOnce", NP=1, H=3, MP=4, MC=2)              # 25 872 histories
+        submit("bfs_r4_evict", _gen, INV="TypeOK AtMostOnce", NP=1, H=6, MP=3, MC=1)        # 12 096
+        submit("bfs_r2_evict", _gen, INV="TypeOK AtMostOnce", R=2, NP=1, H=4, MP=3, MC=2)   #  9 864
+        submit("bfs_2p", _gen, INV="TypeOK AtMostOnce", NP=2, H=2, MP=3, MC=1)              # 43 728
+        sims = [("sim_r4", 4, 4000), ("sim_r3", 3, 2000), ("sim_r2", 2, 4000)]
     for name, r_, num in sims:
         submit(name, _gen, INV="TypeOK AtMostOnce", R=r_, simulate=num, depth=60)
     # every counter-example history of the deviating models (bounded) - replayed on the code as well
@@ -135,7 +136,7 @@ def run(ctx):
 
     # ---- 3. the code ---------------------------------------------------------------------------------
     g = lib.run_go(ctx, "server", "TestVerifC08(Replay|Variants|Gate)", tag="TestVerifC08Main", timeout=2400,
-                   env={"VERIF_IN": inp, "VERIF_C08_CONCS": 2 if q else 8})
+                   env={"VERIF_IN": inp, "VERIF_C08_CONCS": 2 if q else 4})
     lib.collect_go(ctx, g)
     st = stress_f.result()
     if st.get("_died"):
@@ -150,9 +151,11 @@ def run(ctx):
         lib.collect_go(ctx, st)
     gs = g["stats"]
     ctx.log("replay: %d histories, %d runs, %d presentations, %d in-window replay attempts, mismatches=%d, "
-            "nc_diff=%d why_diff=%d" % (gs.get("histories", 0), sum(v for k, v in gs.items() if k.startswith("src:")),
-                                        gs.get("presentations", 0), gs.get("replay_attempts_in_window", 0),
-                                        gs.get("mismatch", 0), gs.get("nc_diff", 0), gs.get("why_diff", 0)))
+            "nc_diff=%d why_diff=%d, %d real clean-ups (%d evicting)" % (
+                gs.get("histories", 0), sum(v for k, v in gs.items() if k.startswith("src:")),
+                gs.get("presentations", 0), gs.get("replay_attempts_in_window", 0),
+                gs.get("mismatch", 0), gs.get("nc_diff", 0), gs.get("why_diff", 0),
+                gs.get("clean_steps", 0), gs.get("clean_steps_evicting", 0)))
     ctx.log("variants still authenticating on their own: %d; gate held %d/%d; stress rounds %s" % (
         gs.get("variants_still_authenticating", 0), gs.get("gate_held", 0),
         gs.get("gate_held", 0) + gs.get("gate_second_passed_while_first_parked", 0),
@@ -172,10 +175,10 @@ def run(ctx):
         "rule": "histories = every maximal path of ReplayCacheGen for the small bounds (1 block, clock 0..3/4, 3 presentations "
                 "of either byte variant, <= 2 clean-ups at any phase, client skew -1..+1) + TLC -simulate paths of the "
                 "model-checked bounds (2 blocks, clock 0..8, 4 presentations, 2 clean-ups) + every counter-example history of "
-                "the three deviating models; each is run under %s tick concretisations on both transports; non-trivial = "
+                "the three deviating models; each is run under %s of the 8 tick concretisations (counter-example histories: all 8), transports alternating; non-trivial = "
                 "a block is presented again after it was accepted (histories), an altered copy that still authenticates "
                 "on its own (variants), every gate/stress round; distinct = distinct action lists / alterations" % (
-                    "2 (rotating)" if q else "all 8"),
+                    "2 (rotating)" if q else "4 (rotating)"),
         "samples": g["samples"] + st["samples"],
         "traces_validated_against_impl": int(gs.get("histories", 0)),
         "histories_by_source": per_src,
